@@ -3,6 +3,9 @@
 # report on the patched tree but not on the unchanged tree. Expected: none.
 here=$(cd "$(dirname "$0")/.." && pwd)
 tmp=$(mktemp -d /tmp/uqbenign.XXXXXX); trap 'rm -rf "$tmp"' EXIT
+# one private copy of the checker and one evaluation of the unchanged tree for the whole table
+cp "$here/bin/uqcheck" "$tmp/uqcheck"; export UQ_BIN="$tmp/uqcheck"
+mkdir -p "$tmp/ev0"; "$UQ_BIN" -property all -repo /repo -verif "$here" -evidence-dir "$tmp/ev0" 2>&1 | grep -E "^  violated" | sed -E 's/ at [^ ]+:[0-9]+.*//' | sort -u > "$tmp/base.txt"; export UQ_BASE="$tmp/base.txt"
 ls "$here"/benign/*.diff | xargs -n1 basename | sed 's/\.diff$//' | xargs -P ${SEED_JOBS:-4} -I{} sh -c "SEED_COLS=300 $here/tools/seed_eval.sh $here/benign/{}.diff > $tmp/{}.out 2>&1"
 python3 - "$here/benign/RESULTS.json" "$tmp" <<'PY'
 import json,sys,os,glob
